@@ -137,38 +137,83 @@ class C05(PropertyCheck):
                   "allowed or not, and every permutation-valued re-ordering oracle of the scheduling pass (covers random_shuffle, "
                   "the priority sort and the iteration order of the successor sets): the cycles partition the gate indices, gates "
                   "in one cycle share no qubit, a qubit-sharing pair that commutation_rules does not declare commuting keeps its "
-                  "order (every qubit-sharing pair when permutation is disabled), and -- over an arbitrary monoid, under the explicit "
-                  "hypotheses H1 (disjoint gates commute) and H2 (pairs declared commuting do commute) -- the cycle-by-cycle product "
-                  "equals the original product (schedule_den_partial, via a generic trace-monoid lemma). H2 is false for the real "
-                  "library (same-name gates of families that do not commute with themselves): refuted by a concrete witness in Lean "
-                  "and on the code, recorded as a known finding. The model is tied to the code by an exact correspondence of cycles "
-                  "lists, cycle indices and dependency edges (exhaustive short sequences, random sequences up to length 14 on 5 "
-                  "qubits, recorded shuffles, repeat_num) and an exhaustive comparison of commutation_rules over its abstraction.")
-    level_note = ("Partial as named: the unitary clause is proved under H2; H1 is the embedding fact supplied centrally. Trusted: Lean "
-                  "kernel; the harness (which shadows `set` with an ascending-iteration subclass and `shuffle` with a recorder in the "
-                  "scheduler module's namespace); stability of Python's list.sort.")
-    technique = ("Lean 4 proof (invariants of the dependency-graph loops and of list scheduling for an arbitrary "
-                 "re-ordering oracle; trace-monoid lemma) + model/implementation correspondence")
+                  "order (every qubit-sharing pair when permutation is disabled). SAME UNITARY, headline for the repaired rule "
+                  "(schedule_den_C_full / schedule_den_C_tree; operators on Matrix (St N) (St N) C, every register size, every "
+                  "valuation of the angles): if every position of the circuit is (1) a library gate in canonical shape -- an IR gate "
+                  "with complex semantics (X Y Z S T SNOT SQRTNOT IDLE RX RY RZ PHASEGATE; CNOT CSIGN CZ CY CS CT CRX CRY CRZ CPHASE; "
+                  "SWAP ISWAP SQRTSWAP SQRTISWAP BERKELEY; TOFFOLI; FREDKIN; GLOBALPHASE) under its own name or the spelling H / CX / "
+                  "iSWAP --, (2) a SWAPALPHA / SWAPalpha gate with any alpha, or (3) ANY operator supported on the used qubits whose "
+                  "instruction is not flagged self-commuting and is not named CNOT X RX Z RZ (QASMU, R, MS, RZX, user-defined gates), "
+                  "and no FREDKIN instruction is flagged self-commuting, then the product of the operators in scheduled order equals "
+                  "the product in the original order. No commutation hypothesis and no decidable side condition is left: every pair "
+                  "the rule can declare commuting is proved to commute (same one-qubit name on one target; same controlled name with "
+                  "equal control or equal target; CNOT with X/RX on its target, with Z/RZ on its control; exchange-symmetric two-qubit "
+                  "names and SWAPALPHA on the same two targets in either order; TOFFOLI with equal target or equal control pair; all "
+                  "angles). schedule_den_C_fixed / schedule_den_C_tree_circuit: the same for circuits of IR gates as an equality of "
+                  "circuit denotations (hypotheses: every gate well-formed on the register, wfG, and canonically shaped, shapeOK; the "
+                  "set of self-commuting names does not contain FREDKIN). The rule and the set these theorems are about are REGENERATED "
+                  "from scheduler.py with ast on every check (lean/QipVerif/Gen/SchedRule.lean): comm_rules_regenerated (on "
+                  "instructions flagged by membership in the tree's set the model's rule IS the regenerated function), "
+                  "tree_set_present, tree_set_without_fredkin, tree_set_interpreted (every name of _SELF_COMMUTING_GATES is one of the "
+                  "proved self-commuting families, each realised by a gate: self_commuting_names_realised) stop building when the rule "
+                  "or the set is edited. Statements about the code BEFORE the repair are kept as theorems about the old variant (every "
+                  "instruction flagged self-commuting): schedule_den_partial (arbitrary monoid, H1 and H2 explicit), schedule_den_C "
+                  "(H1 discharged), schedule_den_C_safe (decidable side condition safeComm), and the refutation "
+                  "C05_counterexample_order / _den (two QASMU gates on one qubit are exchanged by ALAP); the witness is replayed on "
+                  "the code on every check as a regression test of the fixed finding. The model is tied to the code by an exact "
+                  "correspondence of cycles lists, cycle indices and dependency edges (exhaustive short sequences, random sequences "
+                  "up to length 14 on 5 qubits, recorded shuffles, repeat_num, histories of up to 6 calls on one Scheduler object) "
+                  "and an exhaustive comparison of commutation_rules -- model rule and regenerated rule -- over its abstraction.")
+    level_note = ("Full strength on the repaired tree: partition, exclusivity, order and same-unitary are theorems without side "
+                  "conditions. What remains a hypothesis of the unitary clause is what each position IS (GateOK: which operator a gate "
+                  "object denotes): for IR gates the semantics semD (exact Z[zeta16] library / generated rotation matrices, tied to the "
+                  "code by C09), for H / CX / iSWAP / SWAPALPHA the harness compares the real matrices with their IR counterpart / the "
+                  "documented formula on every check; gates outside the library are arbitrary supported operators. The *_partial / "
+                  "_safe theorems and the counter-examples describe the old rule only. Trusted: Lean kernel; the translator "
+                  "py/translate/sched.py (small statement language, validated by comparing the regenerated rule with the code on "
+                  "152 100 instruction pairs); the harness (which shadows `set` with an ascending-iteration subclass and `shuffle` "
+                  "with a recorder in the scheduler module's namespace); stability of Python's list.sort.")
+    technique = ("Lean 4 proof (invariants of the dependency-graph loops and of list scheduling for an arbitrary re-ordering "
+                 "oracle; trace-monoid lemma; operator algebra of embedded controlled / exchange-symmetric gates over C) + "
+                 "commutation rule and self-commuting set regenerated from the source + model/implementation correspondence")
     trusted_base = [
         "Lean 4.33 kernel; axioms propext, Classical.choice, Quot.sound",
+        "py/translate/sched.py (ast translator of commutation_rules, _SELF_COMMUTING_GATES and the conflict-edge flag into "
+        "Gen/SchedRule.lean; anything outside its statement language is refused; the regenerated rule is compared with the code "
+        "on every check)",
         "py/props/sched_common.py, py/props/c05.py (harness; shadows `set` (ascending iteration) and `shuffle` "
         "(recording) in the scheduler module's namespace, /repo itself is untouched)",
         "Python's list.sort is a stable sort for the total preorder _compare_priority (modelled by a stable insertion sort)",
         "deepcopy / set semantics of CPython as modelled in Model/Sched.lean (validated by the correspondence)",
+        "operator semantics of gate objects: Lemmas/Sem.lean (semD, tied to the library by C09) for IR gates; H = SNOT, CX = CNOT, "
+        "iSWAP = ISWAP and the SWAPALPHA matrix are compared with the real library numerically on every check",
     ]
     assumptions = [
-        "H1 (gates on disjoint qubit sets commute) and H2 (commutation_rules a b = true -> the two unitaries commute) "
-        "are explicit hypotheses of schedule_den_partial; H2 is false for some same-name pairs (known finding)",
+        "schedule_den_C_full / _tree: every position is a library gate in canonical shape, a SWAPALPHA gate, or an arbitrary "
+        "operator on its used qubits under a name that is neither flagged self-commuting nor one of CNOT X RX Z RZ (GateOK)",
+        "gates are built by the library's gate classes / QubitCircuit.add_gate, which refuse non-canonical shapes (checked on every "
+        "run for every name of _SELF_COMMUTING_GATES); the bare constructor Gate('CNOT', targets=[0, 1]) (no controls) is outside "
+        "the theorem: for such objects the rule compares sorted target lists that do not determine the operator",
+        "user-defined gates do not reuse a name of _SELF_COMMUTING_GATES or CNOT / X / RX / Z / RZ (QubitCircuit.user_gates takes "
+        "precedence over the library for such a name, the scheduler only sees the name)",
+        "Scheduler.schedule is a function of its arguments, the two constructor settings and the shuffle outcomes (the model is "
+        "stateless); checked by histories of several calls on one Scheduler object",
+        "schedule_den_partial / schedule_den_C (old rule): H1 / H2 are explicit hypotheses; H2 is false for the old rule "
+        "(C05_counterexample_den)",
     ]
-    rule = ("case = (gate sequence as (name, targets, controls), method, allow_permutation, recorded shuffles); "
-            "non-trivial = at least two gates sharing a qubit; cycles lists, gate_cycle_indices and dependency edges "
-            "are compared exactly")
+    rule = ("case = (gate sequence as (name, targets, controls), method, allow_permutation, recorded shuffles, calls made before "
+            "on the same Scheduler object); non-trivial = at least two gates sharing a qubit; cycles lists, gate_cycle_indices "
+            "and dependency edges are compared exactly; plus every ordered pair of instructions over 13 names x 5 control lists x "
+            "6 target lists for commutation_rules (model rule and regenerated rule)")
 
     # ----------------------------------------------------------------------------------
     def _run_batch(self, ctx, res, batch, tag):
-        """batch: list of (specs, N, method, perm, shuffle:bool, repeat:int)"""
+        """batch: list of (specs, N, method, perm, shuffle:bool, repeat:int).  About a third of the cases are run on a
+        Scheduler object shared with the preceding cases of the same setting (a history of up to 6 calls on one object);
+        the model is stateless, so each result must still be what the model answers for that call alone."""
         rng = ctx.rng
         lines, impl = [], []
+        chain = self._chain
         for specs, N, method, perm, shuffle, repeat in batch:
             gates = [gate_obj(s) for s in specs]
             fields = [fields_of(s) + (sc.DEN,) for s in specs]
@@ -176,31 +221,46 @@ class C05(PropertyCheck):
             kw = {"random_shuffle": bool(shuffle)}
             if repeat:
                 kw["repeat_num"] = repeat
-            obj = sc.make_circuit(N, specs) if rng.random() < 0.15 else gates
-            st, idx = sc.impl_schedule(obj, method, perm, log, **kw)
+            as_circuit = rng.random() < 0.15
+            obj = sc.make_circuit(N, specs) if as_circuit else gates
+            sch, hist = chain.get(method, perm, 2) if rng.random() < 0.35 else (None, None)
+            st, idx = sc.impl_schedule(obj, method, perm, log, scheduler=sch, **kw)
+            shuf = log.log if log else None
+            if hist is not None:
+                hist.append({"kind": "gate", "N": N, "gates": specs, "shuf": shuf, "repeat": repeat, "cycles": False,
+                             "as_circuit": as_circuit})
             cyc = None
             if st == "ok" and not repeat:
                 # the cycles list itself, replaying the same shuffles
                 log2 = sc.ShuffleLog(replay=log.log) if log else None
-                st, cyc = sc.impl_schedule(obj, method, perm, log2, return_cycles_list=True, **kw)
-            shuf = log.log if log else None
-            impl.append((st, idx, cyc, shuf))
+                st, cyc = sc.impl_schedule(obj, method, perm, log2, scheduler=sch, return_cycles_list=True, **kw)
+                if hist is not None:
+                    hist.append({"kind": "gate", "N": N, "gates": specs, "shuf": shuf, "repeat": 0, "cycles": True,
+                                 "as_circuit": as_circuit})
+            impl.append((st, idx, cyc, shuf, list(hist) if hist is not None else None))
             if repeat and shuf is not None:
                 lines.append(None)            # several model runs, issued below
             else:
                 lines.append(sc.model_line(method, perm, fields, shuf))
         outs = ctx.driver("drv_sched").run([l for l in lines if l is not None])
         it = iter(outs)
-        for (specs, N, method, perm, shuffle, repeat), line, (st, idx, cyc, shuf) in zip(batch, lines, impl):
+        for (specs, N, method, perm, shuffle, repeat), line, (st, idx, cyc, shuf, hist) in zip(batch, lines, impl):
             used = [sc.used_of(s) for s in specs]
             nontriv = any(used[i] & used[j] for i in range(len(specs)) for j in range(i + 1, len(specs)))
             inp = {"gates": [[s[0], s[1], s[2]] for s in specs], "method": method, "perm": perm, "shuf": shuf,
                    "repeat": repeat}
+            if hist is not None:
+                inp["calls_before_on_this_scheduler"] = [[[g[0], g[1], g[2]] for g in c["gates"]] + [c["cycles"], c["repeat"]]
+                                                          for c in hist[:-1 if repeat else -2]]
             res.case(inp, nontrivial=nontriv,
                      tags=[tag, f"len={len(specs)}", f"method={method}", f"perm={int(perm)}",
-                           f"shuffle={int(bool(shuffle or repeat))}"])
-            w = {"N": N, "gates": specs, "method": method, "perm": perm, "shuf": shuf, "repeat": repeat,
-                 "scope": "covered"}
+                           f"shuffle={int(bool(shuffle or repeat))}",
+                           "history=%d" % (0 if hist is None else min(len(hist), 6))])
+            if hist is None:
+                w = {"N": N, "gates": specs, "method": method, "perm": perm, "shuf": shuf, "repeat": repeat,
+                     "scope": "covered"}
+            else:
+                w = {"history": hist, "method": method, "perm": perm, "scope": "covered"}
             mm = used_mismatch(specs)
             if mm:
                 res.disagree(inp, mm[0], mm[1], "used_qubits of an instruction", w)
@@ -330,6 +390,9 @@ class C05(PropertyCheck):
 
     def correspondence(self, ctx, res):
         rng = ctx.rng
+        self._chain = sc.SchedulerChain()
+        res.notes.append("about a third of the schedule cases are calls on a Scheduler object already used for up to 5 earlier "
+                         "calls of the same setting (tag history=k); the model is stateless")
         missing, extra = sc.library_check()
         if missing or extra:
             res.notes.append(f"gate library differs from the harness table: unknown {missing}, absent {extra}")
@@ -428,7 +491,53 @@ class C05(PropertyCheck):
                 res.disagree(inp, m.get("edges"), e, "dependency edges", None)
 
     # ----------------------------------------------------------------------------------
+    def _judge(self, specs, N, perm, cycles, scope):
+        """the property on one returned cycles list -> (fails, detail)"""
+        bad = cycles_checks(specs, cycles, perm)
+        if bad:
+            return True, bad
+        if scope == "covered" and perm:
+            pair = sc.known_class_pair(specs, N)
+            if pair is not None:
+                return False, (f"structure holds; unitary clause not evaluated: gates {pair} have the same name and equal "
+                               "targets / controls but do not commute (the class of the finding recorded for trees without "
+                               "_SELF_COMMUTING_GATES, excluded by hypothesis H2 of schedule_den_partial)")
+        order = [i for c in cycles for i in c]
+        U0 = sc.product(specs, list(range(len(specs))), N)
+        U1 = sc.product(specs, order, N)
+        err = float(np.abs(U0 - U1).max())
+        if err > 1e-9:
+            return True, f"scheduled order {cycles} changes the unitary (max entry difference {err:.3g})"
+        return False, f"cycles {cycles}: partition, exclusive, same unitary"
+
+    def _replay_history(self, ctx, w):
+        """several schedule() calls on ONE Scheduler object; the property is evaluated on every gate-mode result"""
+        _, _, Scheduler, _, _ = sc._mods()
+        method, perm = w["method"], w["perm"]
+        sch = Scheduler(method, allow_permutation=perm)
+        n = len(w["history"])
+        for k, call in enumerate(w["history"]):
+            st, r = sc.run_call(sch, call, method, perm, gate_of=gate_obj)
+            if call["kind"] != "gate":
+                continue
+            specs = call["gates"]
+            if not specs:
+                if st != "ok" or r != []:
+                    return True, f"call {k + 1} of {n} on one Scheduler object: empty input -> {st} {r}"
+                continue
+            if all(not sc.used_of(s) for s in specs):
+                continue
+            if st != "ok":
+                return True, f"call {k + 1} of {n} on one Scheduler object: schedule raised: {st}"
+            f, d = self._judge(specs, call["N"], perm, sc.cycles_of(call, r), w.get("scope"))
+            if f:
+                return True, (f"call {k + 1} of {n} on one Scheduler object (circuit "
+                              f"{[[g[0], g[1], g[2]] for g in specs]}): " + d)
+        return False, f"{n} calls on one Scheduler object: every result is a partition into exclusive cycles with the same unitary"
+
     def oracle_replay(self, ctx, w):
+        if "history" in w:
+            return self._replay_history(ctx, w)
         specs, N, method, perm = w["gates"], w["N"], w["method"], w["perm"]
         shuf, repeat = w.get("shuf"), w.get("repeat", 0)
         if not specs:
@@ -453,22 +562,30 @@ class C05(PropertyCheck):
                                           random_shuffle=log is not None)
             if st != "ok":
                 return True, f"schedule raised: {st}"
-        bad = cycles_checks(specs, cycles, perm)
-        if bad:
-            return True, bad
-        if w.get("scope") == "covered" and perm:
-            pair = sc.known_class_pair(specs, N)
-            if pair is not None:
-                return False, (f"structure holds; unitary clause not evaluated: gates {pair} have the same name and equal "
-                               "targets / controls but do not commute (the class of the known finding, excluded by "
-                               "hypothesis H2 of schedule_den_partial)")
-        order = [i for c in cycles for i in c]
-        U0 = sc.product(specs, list(range(len(specs))), N)
-        U1 = sc.product(specs, order, N)
-        err = float(np.abs(U0 - U1).max())
-        if err > 1e-9:
-            return True, f"scheduled order {cycles} changes the unitary (max entry difference {err:.3g})"
-        return False, f"cycles {cycles}: partition, exclusive, same unitary"
+        return self._judge(specs, N, perm, cycles, w.get("scope"))
+
+    HIST_POOL = [("CNOT", [1], [0]), ("CNOT", [2], [0]), ("CNOT", [0], [1]), ("SNOT", [0], []), ("X", [1], []),
+                 ("RZ", [0], []), ("RX", [0], []), ("Z", [1], []), ("SWAP", [0, 1], [])]
+
+    def _history_witnesses(self, rng=None, count=None):
+        """two or three short circuits scheduled one after the other on ONE Scheduler object: all ordered pairs of
+        two-gate circuits over HIST_POOL (or `count` random histories of 2-3 circuits of length 2-4 when `rng` is given)"""
+        pool = self.HIST_POOL
+
+        def call(seq, cycles=True):
+            return {"kind": "gate", "N": 3, "gates": specs_from(seq), "shuf": None, "repeat": 0, "cycles": cycles,
+                    "as_circuit": False}
+        if rng is None:
+            two = list(itertools.product(pool, repeat=2))
+            for a in two:
+                for b in two:
+                    for m in ("ASAP", "ALAP"):
+                        yield {"history": [call(a), call(b)], "method": m, "perm": True, "scope": "covered"}
+        else:
+            for _ in range(count):
+                calls = [call([rng.choice(pool) for _ in range(rng.randint(2, 4))], cycles=rng.random() < 0.7)
+                         for _ in range(rng.randint(2, 3))]
+                yield {"history": calls, "method": rng.choice(["ASAP", "ALAP"]), "perm": True, "scope": "covered"}
 
     def _systematic(self):
         P = sc.placements(3)
@@ -493,7 +610,13 @@ class C05(PropertyCheck):
     def oracle_search(self, ctx, budget_s):
         t0 = time.time()
         for w in self._systematic():
-            if time.time() - t0 > budget_s * 0.6:
+            if time.time() - t0 > budget_s * 0.45:
+                break
+            f, d = self.oracle_replay(ctx, w)
+            if f:
+                yield w, d
+        for w in self._history_witnesses():
+            if time.time() - t0 > budget_s * 0.8:
                 break
             f, d = self.oracle_replay(ctx, w)
             if f:
@@ -527,6 +650,11 @@ class C05(PropertyCheck):
         for _ in range(250):
             w = self._random_witness(ctx.rng)
             w["repeat"] = 0
+            f, d = self.oracle_replay(ctx, w)
+            if f:
+                yield w, d
+        # histories: one Scheduler object used for several circuits
+        for w in self._history_witnesses(ctx.rng, 300):
             f, d = self.oracle_replay(ctx, w)
             if f:
                 yield w, d
